@@ -1543,3 +1543,65 @@ Proof.
     eapply run_det; eassumption.
   - destruct Hs as [k Hk]. inversion Hgo; subst. eapply run_det; eassumption.
 Qed.
+
+(* ------------------------------------------------------------------ *)
+(* GoSpec does not run out of a fuel of fsize f                         *)
+
+Definition rec_nf (n : nat) (rec : func -> bool -> bool -> gst -> gres) : Prop :=
+  forall h bp pp g, fsize h <= n -> rec h bp pp g <> GFuel.
+
+Lemma g_rundefers_nf n rec bp : rec_nf n rec ->
+  forall ds panicking g, Forall (callee_fits n) ds -> g_rundefers rec bp ds panicking g <> GFuel.
+Proof.
+  intros Hrec. induction ds as [|d ds IH]; intros panicking g Hfit.
+  - simpl. destruct panicking; discriminate.
+  - inversion Hfit as [|? ? Hd Hds]; subst. rewrite g_rundefers_cons.
+    assert (Hc : callee_res rec d panicking bp g <> GFuel).
+    { destruct d as [h|[k|e|v|v]|]; simpl; try discriminate. apply Hrec. exact Hd. }
+    destruct (callee_res rec d panicking bp g) as [g'|g'|o' tr'|]; [| |discriminate|contradiction].
+    + destruct panicking; [|apply IH; exact Hds].
+      destruct (gpan g') as [|p ps]; [apply IH; exact Hds|].
+      destruct (grecovered p); apply IH; exact Hds.
+    + apply IH. exact Hds.
+Qed.
+
+Lemma g_body_nf n rec f bp pp : rec_nf n rec ->
+  forall b pc ds g, bsize b <= n -> Forall (callee_fits n) ds -> g_body rec f bp pp b pc ds g <> GFuel.
+Proof.
+  intros Hrec. induction b as [|x b IH]; intros pc ds g Hsz Hfit.
+  - simpl. apply g_rundefers_nf with (n := n); assumption.
+  - rewrite bsize_cons in Hsz. assert (Hp := isize_pos x).
+    destruct x as [k|b' inf|b' inf|k|v|down| |b' inf].
+    + destruct k as [m|e|v|v]; simpl g_body; try discriminate.
+      * apply IH; [lia|exact Hfit].
+      * apply g_rundefers_nf with (n := n); assumption.
+    + rewrite bsize_call in Hsz. simpl g_body.
+      assert (Hc : rec (mkfunc b' inf) false false g <> GFuel) by (apply Hrec; unfold fsize; simpl; lia).
+      destruct (rec (mkfunc b' inf) false false g) as [g'|g'|o' tr'|]; [| |discriminate|contradiction].
+      * apply IH; [lia|exact Hfit].
+      * apply g_rundefers_nf with (n := n); assumption.
+    + rewrite bsize_defer in Hsz. simpl g_body. apply IH; [lia|].
+      constructor; [unfold callee_fits, fsize; simpl; lia|exact Hfit].
+    + simpl g_body. apply IH; [lia|]. constructor; [exact I|exact Hfit].
+    + simpl g_body. apply g_rundefers_nf with (n := n); assumption.
+    + simpl g_body. apply IH; [lia|exact Hfit].
+    + simpl g_body. apply g_rundefers_nf with (n := n); assumption.
+    + rewrite bsize_callback in Hsz. simpl g_body.
+      assert (Hc : rec (mkfunc b' inf) false false g <> GFuel) by (apply Hrec; unfold fsize; simpl; lia).
+      destruct (rec (mkfunc b' inf) false false g) as [g'|g'|o' tr'|]; [| |discriminate|contradiction].
+      * apply IH; [lia|exact Hfit].
+      * apply g_rundefers_nf with (n := n); assumption.
+Qed.
+
+Lemma gfn_nf : forall fuel, rec_nf fuel (gfn fuel).
+Proof.
+  induction fuel as [|n IH]; intros h bp pp g Hsz.
+  - unfold fsize in Hsz. lia.
+  - simpl gfn. apply g_body_nf with (n := n); [exact IH|unfold fsize in Hsz; lia|constructor].
+Qed.
+
+Theorem go_run_total f m : fsize f <= m -> go_run m f <> None.
+Proof.
+  intros Hm. unfold go_run. assert (H := gfn_nf m f false false (mkgst [] []) Hm).
+  destruct (gfn m f false false (mkgst [] [])); try discriminate. contradiction.
+Qed.
